@@ -96,10 +96,16 @@ ValidEdit(ls, e) ==
 Weird(e) == e.ek \in {"negativeRange", "invertedRange"}
 
 \* es: a sequence of one or two edits
-Change(u, es) ==
+\* vk: the version the client sends is the next one, the same one again, or an EARLIER one (the protocol asks clients
+\* to count upwards; the mirror follows what is sent, in the order it is sent, whatever the numbers say)
+VersionKinds == {"next", "same", "back"}
+VerOf(d, vk) == CASE vk = "next" -> (IF d.ver < MaxVer THEN d.ver + 1 ELSE d.ver)
+                  [] vk = "same" -> d.ver
+                  [] OTHER -> (IF d.ver > 1 THEN d.ver - 1 ELSE d.ver)
+Change(u, es, vk) ==
     /\ Running
     /\ LET d == docs[u]
-           v == IF d.ver < MaxVer THEN d.ver + 1 ELSE d.ver
+           v == VerOf(d, vk)
            anyWeird == \E i \in DOMAIN es : Weird(es[i])
            l1 == Edited(d.lines, es[1])
            final == IF Len(es) = 1 THEN l1 ELSE Edited(l1, es[2])
@@ -118,7 +124,7 @@ Change(u, es) ==
                  /\ pub' = IF docs'[u].known THEN [pub EXCEPT ![u] = [ver |-> v, lines |-> BadLines(docs'[u].lines)]] ELSE pub
                  /\ UNCHANGED <<phase, nextId>>
     /\ Log([m |-> "didChange", kind |-> "notification", uri |-> u, edits |-> es,
-            ver |-> (IF docs[u].ver < MaxVer THEN docs[u].ver + 1 ELSE docs[u].ver),
+            ver |-> VerOf(docs[u], vk),
             out |-> out', docs |-> docs', diag |-> diag'])
 
 Edits == [ek : EditKinds, k : 1..MaxLines, s : Stmt, full : LineSeqs]
@@ -186,7 +192,7 @@ Next == \/ \E m \in ReqMethods, u \in URIs, pk \in PosKinds, prm \in ParamKinds 
               /\ (prm # "ok" => pk = "inrange")
               /\ Request(m, u, pk, prm)
         \/ \E u \in URIs, ls \in LineSeqs, v \in 1..2 : Open(u, ls, v)
-        \/ \E u \in URIs : \E es \in EditLists(docs[u]) : ValidList(docs[u], es) /\ Change(u, es)
+        \/ \E u \in URIs : \E es \in EditLists(docs[u]) : ValidList(docs[u], es) /\ \E vk \in VersionKinds : Change(u, es, vk)
         \/ \E u \in URIs : Close(u) \/ Save(u, TRUE) \/ Save(u, FALSE)
         \/ \E m \in {"initialized", "$/unknownNotification", "textDocument/didOpen", "textDocument/didChange",
                      "textDocument/didClose", "textDocument/didSave"}, prm \in ParamKinds : Inert(m, prm)
